@@ -6,7 +6,7 @@ P("C25",
   technique="Coq proof of the translator's address arithmetic (exact tie to the real address translator and TLB) + Coq-verified acceptor of the "
             "translation view with trace inclusion of histories recorded at every component boundary of real stacks",
   level_text="PARTIAL. Kernels, exact: c25_paddr_correct (for every page size 2^k, k<64, aligned frame, 64-bit vaddr: physical address = frame + vaddr mod 2^k, "
-             "offset preserved, same frame; requested page = aligned page containing vaddr), c25_paddr_panics_refuted (k>=64 panics: modulo by 1<<k = 0); the "
+             "offset preserved, same frame; requested page = aligned page containing vaddr), c25_paddr_panics_refuted (k>=64 panics: modulo by 1<<k = 0), c25_model_agreement_implies_property (link of the two evaluators for translator probes); the "
              "model's at_vpage/at_paddr/tlb_set_id/inval_match are compared output-for-output with a real address translator and a real TLB on every run. "
              "Stacks, for every accepted history: c25_response_matches_request (every level's response answers a request delivered to that level, goes to its "
              "source, for the page containing the requested address), c25_page_current_or_permitted, c25_access_reaches_mapped_address (translated access = "
